@@ -133,6 +133,34 @@ def run_for_property(prop: str) -> int:
     vs = [v for v in load_variants() if prop in v["props"]]
     vs = [dict(v, props=[prop]) for v in vs]
     res = run_all(vs)
+    # independently seeded changes of this property must be reported; the
+    # behaviour-preserving refactoring corpus must stay silent
+    from . import seeded as _seeded
+    extra = []
+    try:
+        names = [n for n in _seeded.list_seeded() if json.load(open(os.path.join(_seeded.SEEDED, n, "meta.json"))).get("property") == prop]
+        with ProcessPoolExecutor(max_workers=16) as ex:
+            for r in ex.map(_seeded.run_seed, [(n, False) for n in names]):
+                ok = r["status"] == "ran" and bool(r["fired"].get(prop))
+                msg = ("detected: " + r["fired"][prop][0][:120]) if ok else f"NOT DETECTED ({r['status']})"
+                v = {"id": "seeded/" + r["name"], "kind": "fire", "rule": "", "props": [prop]}
+                res.append((v, {"status": "ran" if r["status"] == "ran" else "error"}, ok, msg))
+        rdir = os.path.join(os.path.dirname(HERE), "refactors")
+        if os.path.isdir(rdir):
+            rnames = sorted(d for d in os.listdir(rdir) if os.path.exists(os.path.join(rdir, d, "patch.diff")))
+            from .registry import PROPS as _P
+            my_rules = set(_P[prop]["rules"])
+            with ProcessPoolExecutor(max_workers=16) as ex:
+                for r in ex.map(_seeded.run_refactor, [(n, rdir) for n in rnames]):
+                    if r["status"] != "ran":
+                        continue
+                    mine = [k for k, ps in r["fired"].items() if prop in ps]
+                    errs = [e for e in r["errors"] if e.split(":")[0] in my_rules]
+                    ok = not mine and not errs
+                    v = {"id": "refactors/" + r["name"], "kind": "silent", "rule": "", "props": [prop]}
+                    res.append((v, {"status": "ran"}, ok, "silent" if ok else f"FALSE ALARM {mine or errs}"))
+    except Exception as e:  # pragma: no cover
+        print(f"   (seeded/refactor corpus not run: {e!r})")
     bad = [(v, msg) for v, r, ok, msg in res if not ok]
     skipped = [v["id"] for v, r, ok, msg in res if r["status"] == "skipped"]
     n_fire = len([v for v in vs if v["kind"] == "fire"])
